@@ -6,7 +6,7 @@ import threading
 
 from .. import bootstrap  # noqa: F401
 from ..probe import Session
-from ..c02trace import build as build_program, normalise
+from ..c02trace import build_single as build_program, normalise
 from ..prog import execute
 
 import usim
